@@ -433,7 +433,8 @@ namespace xsimd
         template <size_t N, class A>
         XSIMD_INLINE batch<uint16_t, A> rotate_left(batch<uint16_t, A> const& self, requires_arch<avx512bw>) noexcept
         {
-            return _mm512_alignr_epi8(self, self, N);
+            // alignr_epi8 works inside each 128-bit lane and counts bytes: use the element-wise generic rotation
+            return rotate_left<N, A>(self, generic {});
         }
         template <size_t N, class A>
         XSIMD_INLINE batch<int16_t, A> rotate_left(batch<int16_t, A> const& self, requires_arch<avx512bw>) noexcept
